@@ -8,6 +8,9 @@ impl RenetClient {
                 ChannelOrder::Reliable(c) => self.send_reliable_channels@.contains_key(c),
                 ChannelOrder::Unreliable(c) => self.send_unreliable_channels@.contains_key(c),
             }
+        // every send channel is filed under its own id (U14 builds the maps so; no operation changes a channel's id)
+        &&& forall|c: u8| #[trigger] self.send_reliable_channels@.contains_key(c) ==> self.send_reliable_channels@[c].channel_id == c
+        &&& forall|c: u8| #[trigger] self.send_unreliable_channels@.contains_key(c) ==> self.send_unreliable_channels@[c].channel_id == c
         &&& self.packet_sequence < 0x2000_0000_0000_0000
         &&& self.available_bytes_per_tick <= 0x1_0000_0000_0000
         &&& (!self.disconnected() ==> {
